@@ -6,8 +6,10 @@
     write addresses a cluster of the file's own chain or a cluster that was free, so ANY subset of those writes (any
     crash point, any reordering) leaves every cluster of every other chain as it was; the same for the rewrite of a
     directory held in a cluster chain, including its growth and the erasing of the new clusters (C12_dir_crash).  The
-    composition over whole operations (C12_confine: several such primitives plus FAT flushes in sequence) is checked by
-    remounting the real image at every crash point. *)
+    general form (C12_crash_confined_to_writes, C12_torn_writes): for ANY device, ANY list of writes and ANY subset of them that
+    reached the device — whole or torn to a prefix — every byte range that none of the writes overlaps reads exactly as before.
+    What remains unproved is only the characterisation of the write set of each whole operation (C12_confine: which ranges the
+    several primitives plus FAT flushes of one operation touch); it is checked by remounting the real image at every crash point. *)
 From Coq Require Import ZArith List Bool Lia.
 From PyFatV Require Import Base.Bytes Base.PyEnv Gen.Pure Model.Codec Model.Dir Model.FS Proofs.Session Proofs.Device Proofs.DirCodec Proofs.DirState Proofs.Chains Proofs.FileData.
 Import ListNotations.
@@ -56,3 +58,17 @@ Theorem C12_repeated_slot_ignored : forall f s rest pend acc, lslot_ok s -> In s
   scan_slots (S f) (ser_lfnslot s ++ rest) pend acc = scan_slots f rest pend acc.
 Proof. exact scan_repeated_slot. Qed.
 Print Assumptions C12_repeated_slot_ignored.
+
+Theorem C12_crash_confined_to_writes : forall d sz l, dev_ok d -> Forall (fun w => 0 <= fst w) l ->
+  forall keep a n, 0 <= a ->
+  Forall (fun w => a + n <= fst w \/ fst w + lenZ (snd w) <= a) l ->
+  dev_ok (apply_some d l keep) /\ dread (apply_some d l keep) sz a n = dread d sz a n.
+Proof. exact crash_outside_writes. Qed.
+Print Assumptions C12_crash_confined_to_writes.
+Theorem C12_torn_writes : forall d sz l l', dev_ok d -> Forall (fun w => 0 <= fst w) l ->
+  Forall2 (fun (w' w:Z * list Z) => fst w' = fst w /\ lenZ (snd w') <= lenZ (snd w)) l' l ->
+  forall keep a n, 0 <= a ->
+  Forall (fun w => a + n <= fst w \/ fst w + lenZ (snd w) <= a) l ->
+  dread (apply_some d l' keep) sz a n = dread d sz a n.
+Proof. exact crash_torn_writes. Qed.
+Print Assumptions C12_torn_writes.
